@@ -75,7 +75,9 @@ TypeOK(t) ==
 (*                        out = R | [ok, t], mustfail]                      *)
 (***************************************************************************)
 ValueDecoders == {"msgpack.Unmarshal", "json.Unmarshal"}
-AllocBoundKiB(len) == 4096 + 64 * ((len + 1023) \div 1024)      \* 4 MiB + 64 x input size
+\* 4 MiB + 4 KiB per input byte: building a value costs a few KiB of (cumulative) allocation per encoded element, e.g.
+\* about 4.4 MiB for a 2.7 kB encoding of a 1030-element set; what the rule is after is allocation driven by DECLARED sizes
+AllocBoundKiB(len) == 4096 + 4 * len
 DecFailed(e) ==
   (IF ~e.out.ok /\ e.out.fail = "panic" THEN {"C17.NoPanic"} ELSE {})
   \cup (IF e.dec \in ValueDecoders /\ e.out.ok THEN
